@@ -599,7 +599,7 @@ PATTERNS = [
 ]
 STORAGE_MUT = r"\bstorage" + W + r"\." + W + r"(create|put|put_bytes|delete|drop_data|drop_prefix|store_metadata|to_writer|stream_writer)" + W + r"(?:::<[^>]*>)?\("
 # index mutations: the method that is called, on whatever the index is called locally
-INDEX_MUT = r"(\." + W + r"(?:flush|compact_index|drop_data)" + W + r"\(|\b(?:BTree|BM25|Hnsw)" + W + r"::" + W + r"(?:new|with_virtual_field)" + W + r"\()"
+INDEX_MUT = r"(\." + W + r"(?:flush|compact_index|drop_data)" + W + r"\(|\b(?:BTree|BM25|Hnsw)" + W + r"::" + W + r"(?:new|with_virtual_field|bootstrap)" + W + r"\()"
 
 
 def handle_names(f):
@@ -854,6 +854,103 @@ if loads:
 else:
     close_flush_states = list(STATES)      # no re-check after the drain
 
+# ------------------------------------------------------------------------------------------
+# other writers under the collection prefix: the index modules and the rest of the crate
+# ------------------------------------------------------------------------------------------
+WRITE_CALL = r"\." + W + r"(?:put|put_bytes|create|delete|drop_prefix|drop_data|store_metadata|to_writer|stream_writer)" + W + r"(?:::<[^>()]*>)?\("
+# the index methods the skeleton extractor counts as a storage mutation when `impl Collection` calls them
+INDEX_MUT_NAMES = ["flush", "compact_index", "drop_data", "new", "with_virtual_field", "bootstrap"]
+INDEX_FILES = [("rs/anda_db/src/index/btree.rs", "BTree"), ("rs/anda_db/src/index/bm25.rs", "BM25"), ("rs/anda_db/src/index/hnsw.rs", "Hnsw")]
+
+
+def all_fns(text):
+    """every fn with a body in the file: [(impl type | "", name, vis, body)]"""
+    out = []
+    impls = []
+    for m in re.finditer(r"(?m)^impl\b[^{;]*\{", text):
+        head = m.group(0)
+        ty = re.findall(r"([A-Za-z_]\w*)\s*(?:<[^{]*?>)?\s*(?:where\b[^{]*)?\{$", head.strip())
+        tname = re.search(r"(?:\bfor\s+)?&?\s*([A-Za-z_]\w*)\s*(?:<[^<>]*(?:<[^<>]*>[^<>]*)*>)?\s*(?:where\b[\s\S]*)?\{$", head)
+        b = match_brace(text, m.end() - 1)
+        impls.append((m.end(), b, tname.group(1) if tname else ""))
+    for m in FN_RE.finditer(text):
+        if m.start() > 0 and (text[m.start() - 1].isalnum() or text[m.start() - 1] == "_"):
+            continue
+        k = text.find("(", m.end())
+        if k < 0:
+            continue
+        p1 = match_brace(text, k, "(", ")")
+        b0 = text.find("{", p1)
+        semi = text.find(";", p1)
+        if b0 < 0 or (semi != -1 and semi < b0):
+            continue
+        b1 = match_brace(text, b0)
+        ty = ""
+        for a, b, t in impls:
+            if a <= m.start() < b:
+                ty = t
+        vis = 2 if (m.group(1) and not m.group(2)) else 1 if m.group(1) else 0
+        out.append((ty, m.group(4), vis, text[b0 + 1:b1]))
+    return out
+
+
+index_writers = []
+for rel, ty in INDEX_FILES:
+    t = cut_tests(strip_rust_comments(read_source(repo, rel)))
+    fs = all_fns(t)
+    if not any(x[0] == ty for x in fs):
+        die(f"c06_guards: no fn of impl {ty} found in {rel}")
+    names = {x[1] for x in fs}
+    wr = {x[1] for x in fs if re.search(WRITE_CALL, x[3])}
+    calls = {}
+    for _, n, _, body in fs:
+        # `.name(` and bare `name(` resolve by name; `Path::name(` only when Path is `Self` or a type implemented in this file
+        tys = {x[0] for x in fs if x[0]} | {"Self"}
+        for q, c in re.findall(r"(?:\b([A-Za-z_]\w*)\s*(?:::\s*<[^;{}]*?>\s*)?::\s*)?\b([A-Za-z_]\w*)\s*(?:::<[^>()]*>)?\(", body):
+            if c in names and c != n and (not q or q in tys):
+                calls.setdefault(n, set()).add(c)
+    ch = True
+    while ch:
+        ch = False
+        for n, cs in calls.items():
+            if n not in wr and cs & wr:
+                wr.add(n)
+                ch = True
+    for tyx, n, vis, _ in fs:
+        if tyx == ty and vis >= 1 and n in wr and (ty, n) not in index_writers:
+            index_writers.append((ty, n))
+if not index_writers:
+    die("c06_guards: no index method reaches a storage write — the extraction is broken")
+
+# files of the crate that are none of: storage.rs (the implementation), collection.rs / database.rs (skeletons above),
+# the three index modules (table above)
+import os
+KNOWN = {"storage.rs", "collection.rs", "database.rs", "index/btree.rs", "index/bm25.rs", "index/hnsw.rs"}
+elsewhere = []
+root = os.path.join(repo, "rs/anda_db/src")
+for dp, _, files in sorted(os.walk(root)):
+    for fn in sorted(files):
+        if not fn.endswith(".rs"):
+            continue
+        rel = os.path.relpath(os.path.join(dp, fn), root)
+        if rel in KNOWN:
+            continue
+        t = cut_tests(strip_rust_comments(open(os.path.join(dp, fn), encoding="utf-8").read()))
+        if re.search(r"\bstorage\b[^;{}]*?" + WRITE_CALL, t) or re.search(r"\.\s*(?:put_opts|put_multipart\w*|copy\w*|rename\w*)\s*\(", t) \
+                or re.search(r"\bobject_store\b[^;{}]*?\.\s*(?:put|delete)\w*\s*\(", t):
+            elsewhere.append(rel)
+# collection.rs: write sites outside the fns of impl Collection
+outside_writes = len(re.findall(STORAGE_MUT, outside)) + len([m for m in re.finditer(INDEX_MUT, outside) if not m.group(0).lstrip().startswith(".")]) \
+    + len(re.findall(r"\bindex\w*" + W + r"\." + W + r"(?:flush|compact_index|drop_data)" + W + r"\(", outside))
+# background tasks: nothing in the crate may detach a writer from the future that holds the lease
+spawns = []
+for dp, _, files in sorted(os.walk(root)):
+    for fn in sorted(files):
+        if fn.endswith(".rs"):
+            t = cut_tests(strip_rust_comments(open(os.path.join(dp, fn), encoding="utf-8").read()))
+            if re.search(r"\b(?:tokio\s*::\s*)?(?:task\s*::\s*)?spawn(?:_blocking|_local)?\s*\(|\bthread\s*::\s*spawn\s*\(", t):
+                spawns.append(os.path.relpath(os.path.join(dp, fn), root))
+
 inits = []
 for name, f in fns.items():
     for m in re.finditer(r"\blifecycle" + W + r":" + W + r"AtomicU8" + W + r"::" + W + r"new\(" + W + r"LIFECYCLE_(\w+)", f["body"]):
@@ -1094,7 +1191,7 @@ inductive Mk where
   | roStore           -- self.read_only.store(..)
   | awaitPt           -- any other `.await`
   | mut               -- a storage mutation: storage.put/create/delete/drop_*/store_metadata, <index>.flush/compact_index/drop_data,
-                      -- BTree/BM25/Hnsw::new
+                      -- BTree/BM25/Hnsw::new / ::bootstrap (Hnsw::bootstrap purges orphan node blobs)
   | call (callee : String)  -- a call of a `pub` / `pub(crate)` Collection fn that transitively reaches a storage mutation
   deriving DecidableEq, Repr
 
@@ -1126,6 +1223,24 @@ the fns of `impl Collection` in the same file — where no skeleton covers the c
 def privateWritersCalledOutside : List String := [{", ".join(chr(34) + c + chr(34) for c in called_outside)}]
 
 theorem gen_no_private_writer_called_outside : privateWritersCalledOutside = [] := by decide
+
+/-- index modules (index/btree.rs, bm25.rs, hnsw.rs): every `pub` / `pub(crate)` fn of `impl BTree` / `BM25` / `Hnsw`
+that transitively (calls resolved by name inside the file, closures included) reaches a `Storage` write -/
+def indexWriters : List (String × String) := [{", ".join("(" + chr(34) + a + chr(34) + ", " + chr(34) + b + chr(34) + ")" for a, b in index_writers)}]
+/-- the index methods the skeleton extractor counts as a storage mutation (`mut`) when `impl Collection` calls them
+(`<index>.flush(..)`, `.compact_index()`, `.drop_data()`, `BTree/BM25/Hnsw::new(..)`, `::with_virtual_field(..)`, `::bootstrap(..)`) -/
+def indexMutMarkers : List String := [{", ".join(chr(34) + n + chr(34) for n in INDEX_MUT_NAMES)}]
+/-- source files of the crate, other than storage.rs itself, collection.rs, database.rs and the three index modules,
+that call a `Storage` write or the object store directly -/
+def storageWriteSitesElsewhere : List String := [{", ".join(chr(34) + n + chr(34) for n in elsewhere)}]
+/-- storage / index write call sites in collection.rs that are not inside a fn of `impl Collection` -/
+def writeSitesOutsideImplCollection : Nat := {outside_writes}
+/-- source files of the crate that detach work with `spawn` (a writer outside the future that holds the lease) -/
+def filesThatSpawn : List String := [{", ".join(chr(34) + n + chr(34) for n in spawns)}]
+
+theorem gen_index_writers_marked : indexWriters.all (fun w => indexMutMarkers.contains w.2) = true := by decide
+theorem gen_no_other_storage_writer :
+    storageWriteSitesElsewhere = [] ∧ writeSitesOutsideImplCollection = 0 ∧ filesThatSpawn = [] := by decide
 
 end AndaVerif.Gen.CollectionGuards
 """
